@@ -751,3 +751,45 @@ pub fn overflowing_float_text(s: &str) -> bool {
 		_ => false,
 	}
 }
+
+// ------------------------------------------------------------------------------------------
+// serde::Serialize for the model, so that a target crate's serializer can be driven directly
+// by the harness (reference reasons for C11).
+// ------------------------------------------------------------------------------------------
+
+impl serde::Serialize for V {
+	fn serialize<S: serde::Serializer>(&self, s: S) -> Result<S::Ok, S::Error> {
+		use serde::ser::{SerializeMap, SerializeSeq};
+		match self {
+			V::Null => s.serialize_unit(),
+			V::Bool(b) => s.serialize_bool(*b),
+			V::Int(i) => {
+				if *i >= 0 {
+					s.serialize_u64(*i as u64)
+				} else {
+					s.serialize_i64(*i as i64)
+				}
+			}
+			V::Float(b) => s.serialize_f64(f64::from_bits(*b)),
+			V::F32(b) => s.serialize_f32(f32::from_bits(*b)),
+			V::Str(x) => s.serialize_str(x),
+			V::Bytes(b) => s.serialize_bytes(b),
+			V::Other(x) => s.serialize_str(x),
+			V::Arr(a) => {
+				let mut q = s.serialize_seq(Some(a.len()))?;
+				for x in a {
+					q.serialize_element(x)?;
+				}
+				q.end()
+			}
+			V::Map(m) => {
+				let mut q = s.serialize_map(Some(m.len()))?;
+				for (k, x) in m {
+					q.serialize_key(k)?;
+					q.serialize_value(x)?;
+				}
+				q.end()
+			}
+		}
+	}
+}
